@@ -15,7 +15,7 @@ from vlib.server import run_coro
 PROP = 'C18'
 MANIFEST = dict(
     text="Bounded symbolic check of the three integrations' request gate and reply construction: integration x base media type {the 3 documented types, near-misses (application/jsons, application/x+json, text/json), unrelated, header missing} "
-         "x parameter suffix x body kind {call ok, call failing, notification, batch, invalid JSON; bytes that are not UTF-8 with the media types that are refused anyway} x status-by-error function (default / by error code, the chosen statuses picked by symbolic bits); several endpoint prefixes on one Flask / aiohttp application (each request must be served by its own endpoint's dispatcher). "
+         "x parameter suffix x body kind {call ok, call failing, notification, batch, invalid JSON; bytes that are not UTF-8 with the media types that are refused anyway} x status-by-error function (default / by error code, the chosen statuses picked by symbolic bits); several endpoint prefixes on one Flask / aiohttp application (each request must be served by its own endpoint's dispatcher); sequences of 2..3 requests served by ONE application object (each gets a reply of its own). "
          "For werkzeug the Content-Type is `base + symbolic suffix (len <= 1 quick / <= 2 thorough)`, so the solver looks for ANY such characters that make a wrong media type pass or a right one fail; for Flask and aiohttp a symbolic header cannot cross their request objects "
          "(LocalProxy / C multidict), there the suffix comes from a concrete list. Oracle: media type (part before ';', trimmed, case-insensitive) documented => body == the dispatcher's text, JSON content type, status == status_by_error(codes) (200 default), empty 200 when the dispatcher returns nothing; "
          "otherwise 415 AS A RESPONSE and no method executed.",
@@ -67,6 +67,8 @@ def obligations(tier):
             continue
         for body in ('ok', 'notif'):
             obs.append({'h': 'endpoints', 'integ': integ, 'target': target, 'nep': nep, 'body': body})
+    for integ, seq in it.product(('flask', 'aiohttp'), (('notif', 'notif'), ('notif', 'ok', 'notif'), ('ok', 'ok'), ('notif', 'notif', 'notif'), ('fail', 'notif'))):
+        obs.append({'h': 'sequence', 'integ': integ, 'seq': list(seq)})
     n = 1 if tier == 'quick' else 2
     for base, body in it.product(BASES[:-1], ('ok', 'garbage')):
         if tier == 'quick' and (body != 'ok' or base not in ('application/json', 'application/json-rpc', 'application/jsons')):
@@ -340,3 +342,77 @@ def _aiohttp(env, header, body, echo, fail, status_by_error):
         return resp.status, resp.headers.get('Content-Type'), (resp.text or '') if hasattr(resp, 'text') else ''
 
     return run_coro(go())
+
+
+def h_sequence(ob):
+    """Several requests served by ONE application object, one after the other: each gets a reply of its own (for aiohttp the
+    returned response object must be an unsent one - the framework can send a response object only once; sending is simulated
+    with prepare() / write_eof() on the mocked request)."""
+    def run(env):
+        import asyncio
+        from unittest import mock
+        integ_name = ob['integ']
+        log = []
+        echo, fail = _methods(log)
+        bodies = [BODY_TEXT[b] for b in ob['seq']]
+        replies = []
+        try:
+            if integ_name == 'flask':
+                import flask
+                from pjrpc.server.integration import flask as fi
+                with env.untraced():
+                    app = flask.Flask('verif')
+                    rpc = fi.JsonRPC('/api')
+                    rpc.dispatcher.add(echo, name='echo')
+                    rpc.dispatcher.add(fail, name='fail')
+                    rpc.init_app(app)
+                    client = app.test_client()
+                for body in bodies:
+                    resp = client.post('/api', data=_bytes(body), headers={'Content-Type': 'application/json'})
+                    replies.append((resp.status_code, resp.get_data(as_text=True), True))
+            else:
+                from aiohttp import streams, web
+                from aiohttp.test_utils import make_mocked_request
+                from pjrpc.server.integration import aiohttp as ai
+
+                async def go():
+                    app = ai.Application('/api')
+                    app.dispatcher.add(_acoro(echo), name='echo')
+                    app.dispatcher.add(_acoro(fail), name='fail')
+                    loop = asyncio.get_running_loop()
+                    for body in bodies:
+                        payload = streams.StreamReader(mock.Mock(_reading_paused=False), 2 ** 16, loop=loop)
+                        payload.feed_data(_bytes(body))
+                        payload.feed_eof()
+                        req = make_mocked_request('POST', '/api', headers={'Content-Type': 'application/json'}, payload=payload, app=app.app)
+                        match = await app.app.router.resolve(req)
+                        resp = await match.handler(req)
+                        sendable = not resp.prepared
+                        replies.append((resp.status, resp.text or '', sendable))
+                        await resp.prepare(req)
+                        await resp.write_eof()
+                run_coro(go())
+        except Violation:
+            raise
+        except Exception as e:
+            raise Violation('raised-out-of-the-integration:' + type(e).__name__, ob['seq'])
+        env.reached()
+        runs = 0
+        for k, (b, (status, text, sendable)) in enumerate(zip(ob['seq'], replies)):
+            runs += WANT_RUNS[b]
+            if not sendable:
+                raise Violation('reply-object-already-sent', (k, ob['seq']))
+            if status != 200:
+                raise Violation('sequence-status', (k, status))
+            if b == 'notif':
+                if text:
+                    raise Violation('notification-reply-not-empty-200', (k, text))
+            else:
+                want = {'ok': {'jsonrpc': '2.0', 'id': 7, 'result': [5]}}.get(b)
+                if want is not None and json.loads(text) != want:
+                    raise Violation('body-differs-from-dispatcher-document', (k, text))
+        if len(replies) != len(bodies) or len(log) != runs:
+            raise Violation('executions', (log, runs))
+        return [len(replies)]
+
+    return run
